@@ -4,20 +4,25 @@
    MODEL FILE: definitions only.
 
    Fragment: Int / Bool / String literals, list literals of Ints (List<Int>),
-   variables, let, assignment, `+=` / `-=`, the binary operators, if / if-else,
-   while, blocks, println / string_repr, calls of top-level functions whose
-   parameters and return type are all annotated with Int, Bool, String, Unit or
-   List<Int>.
+   Option<T> values (`Some(e)`, `None`), variables, let, assignment, `+=` /
+   `-=`, the binary operators, if / if-else, `match` on an Option with exactly
+   the arms `Some(x)` and `None`, while, `for x in <List<Int>>`, blocks, pairs
+   `(a, b)` with the destructuring `let (x, y) = e`,
+   println / string_repr, early `return e`, calls of top-level functions whose
+   parameters and return type are all annotated with Int, Bool, String, Unit,
+   List<Int>, Option<T> or a pair type (T, U).
 
    `tc` is written to ACCEPT ONLY programs that garden's checker
    (src/checks/type_checker.rs) accepts without errors in this fragment; it is
-   stricter in places (e.g. `==` wants equal types, where garden only warns).
+   stricter in places (if-else / match branches must have comparable types, no
+   function values, a list literal needs an Int item).
    That direction is validated by verdict correspondence (tools/props/C16.py).
 
    `ev` is a big-step evaluator with fuel.  Every runtime error class of the
    property is the distinguished outcome `TypeErr`: wrong operand / argument /
-   condition type, wrong arity, calling something that is not a function,
-   unknown variable, failed parameter or return annotation check.  Arithmetic
+   condition / iterated / scrutinee type, wrong arity, calling something that is
+   not a function, unknown variable, failed parameter or return annotation
+   check, a `match` without an arm for the value.  Arithmetic
    failures (division by zero, overflow) are `OtherErr`. *)
 From Coq Require Import ZArith NArith Bool List.
 Import ListNotations.
@@ -25,13 +30,34 @@ Open Scope Z_scope.
 
 Definition ident := N.
 
-Inductive ty := TInt | TBool | TStr | TUnit | TListInt.
+(* TNoValue: the type of `return e` and of the payload of a bare `None` (garden's NoValue); no value has it *)
+(* TListEmpty: the type of the literal `[]` (garden's List<NoValue>), below List<Int> *)
+Inductive ty := TInt | TBool | TStr | TUnit | TListInt | TListEmpty | TNoValue | TOpt (t : ty) | TPair (a b : ty).
 
-Definition ty_eqb (a b : ty) : bool :=
+Fixpoint ty_eqb (a b : ty) : bool :=
   match a, b with
-  | TInt, TInt | TBool, TBool | TStr, TStr | TUnit, TUnit | TListInt, TListInt => true
+  | TInt, TInt | TBool, TBool | TStr, TStr | TUnit, TUnit | TListInt, TListInt | TListEmpty, TListEmpty
+  | TNoValue, TNoValue => true
+  | TOpt x, TOpt y => ty_eqb x y
+  | TPair x1 x2, TPair y1 y2 => ty_eqb x1 y1 && ty_eqb x2 y2
   | _, _ => false
   end.
+
+(* garden's is_subtype on these types: NoValue is below everything, Option is covariant *)
+Fixpoint sub (a b : ty) : bool :=
+  match a, b with
+  | TNoValue, _ => true
+  | TOpt x, TOpt y => sub x y
+  | TPair x1 x2, TPair y1 y2 => sub x1 y1 && sub x2 y2
+  | TListEmpty, TListInt => true
+  | _, _ => ty_eqb a b
+  end.
+
+(* the common type of two branches: the larger one when they are comparable *)
+Definition join (a b : ty) : option ty :=
+  if sub a b then Some b else if sub b a then Some a else None.
+
+Inductive pat := PSome (x : ident) | PNone.
 
 Inductive bop :=
 | OArith (k : N)      (* + - * / % ** & |  : Int x Int -> Int; k = 0..7 *)
@@ -54,7 +80,14 @@ Inductive tm :=
 | TmAssign (x : ident) (e : tm)
 | TmUpd (minus : bool) (x : ident) (e : tm)
 | TmIf (c : tm) (th : list tm) (el : option (list tm))
-| TmWhile (c : tm) (b : list tm).
+| TmWhile (c : tm) (b : list tm)
+| TmSome (e : tm)
+| TmNone
+| TmMatch (sc : tm) (arms : list (pat * list tm))
+| TmFor (x : ident) (it : tm) (b : list tm)
+| TmReturn (e : tm)
+| TmPair (a b : tm)
+| TmLetPair (x y : ident) (e : tm).
 
 Record fdef := { fparams : list (ident * ty); fret : ty; fbody : list tm }.
 Definition fenv := list (ident * fdef).
@@ -100,11 +133,13 @@ Definition ctx := list (list (ident * ty)).
 
 Definition bop_ty (o : bop) (a b : ty) : option ty :=
   match o with
-  | OArith _ => if ty_eqb a TInt && ty_eqb b TInt then Some TInt else None
-  | OCmp _ => if ty_eqb a TInt && ty_eqb b TInt then Some TBool else None
-  | OEq | ONeq => if ty_eqb a b then Some TBool else None
-  | OAnd | OOr => if ty_eqb a TBool && ty_eqb b TBool then Some TBool else None
-  | OConcat => if ty_eqb a TStr && ty_eqb b TStr then Some TStr else None
+  | OArith _ =>
+      (* garden reports "use +." when BOTH operands are below Float, which NoValue is *)
+      if sub a TInt && sub b TInt && negb (ty_eqb a TNoValue && ty_eqb b TNoValue) then Some TInt else None
+  | OCmp _ => if sub a TInt && sub b TInt then Some TBool else None
+  | OEq | ONeq => Some TBool          (* garden only warns when the types differ *)
+  | OAnd | OOr => if sub a TBool && sub b TBool then Some TBool else None
+  | OConcat => if sub a TStr && sub b TStr then Some TStr else None
   end.
 
 Section WithChecker.
@@ -131,6 +166,13 @@ Section WithChecker.
             | Some t => match l' with [] => Some TUnit | _ => tc_stmts (bind x t G) l' end
             | None => None
             end
+        | TmLetPair x y r =>
+            match tcf G r with
+            | Some (TPair ta tb) =>
+                if N.eqb x y then None
+                else match l' with [] => Some TUnit | _ => tc_stmts (bind y tb (bind x ta G)) l' end
+            | _ => None
+            end
         | _ =>
             match tcf G e with
             | Some t => match l' with [] => Some t | _ => tc_stmts G l' end
@@ -140,21 +182,25 @@ Section WithChecker.
     end.
 End WithChecker.
 
-Definition tys_eqb (a b : list ty) : bool :=
-  Nat.eqb (length a) (length b) && forallb (fun p => ty_eqb (fst p) (snd p)) (combine a b).
+Definition tys_sub (a b : list ty) : bool :=
+  Nat.eqb (length a) (length b) && forallb (fun p => sub (fst p) (snd p)) (combine a b).
 
-Fixpoint tc (n : nat) (F : fenv) (G : ctx) (e : tm) : option ty :=
+(* rt: the declared return type of the enclosing function (None at top level) *)
+Fixpoint tc (n : nat) (F : fenv) (rt : option ty) (G : ctx) (e : tm) : option ty :=
   match n with
   | O => None
   | S n' =>
-      let rec := tc n' F in
+      let rec := tc n' F rt in
       match e with
       | TmInt _ => Some TInt
       | TmBool _ => Some TBool
       | TmStr _ => Some TStr
       | TmList l =>
           match tc_list rec G l with
-          | Some ts => if forallb (fun t => ty_eqb t TInt) ts then Some TListInt else None
+          | Some [] => Some TListEmpty
+          | Some ts =>
+              (* every item below Int, at least one of them Int *)
+              if forallb (fun t => sub t TInt) ts && existsb (fun t => ty_eqb t TInt) ts then Some TListInt else None
           | None => None
           end
       | TmVar x => lookup x G
@@ -171,56 +217,95 @@ Fixpoint tc (n : nat) (F : fenv) (G : ctx) (e : tm) : option ty :=
               | None => None
               | Some d =>
                   match tc_list rec G args with
-                  | Some ts => if tys_eqb ts (map snd (fparams d)) then Some (fret d) else None
+                  | Some ts => if tys_sub ts (map snd (fparams d)) then Some (fret d) else None
                   | None => None
                   end
               end
           end
-      | TmPrintln a => match rec G a with Some TStr => Some TUnit | _ => None end
+      | TmPrintln a => match rec G a with Some t => if sub t TStr then Some TUnit else None | None => None end
       | TmRepr a => match rec G a with Some _ => Some TStr | None => None end
       | TmLet _ _ => None                     (* only as a statement of a block *)
       | TmAssign x r =>
           match lookup x G, rec G r with
-          | Some tx, Some tr => if ty_eqb tx tr then Some TUnit else None
+          | Some tx, Some tr => if sub tr tx then Some TUnit else None
           | _, _ => None
           end
       | TmUpd _ x r =>
           match lookup x G, rec G r with
-          | Some TInt, Some TInt => Some TUnit
+          | Some TInt, Some tr => if sub tr TInt then Some TUnit else None
           | _, _ => None
           end
       | TmIf c th None =>
           match rec G c, tc_stmts rec ([] :: G) th with
-          | Some TBool, Some _ => Some TUnit
+          | Some tcnd, Some _ => if sub tcnd TBool then Some TUnit else None
           | _, _ => None
           end
       | TmIf c th (Some el) =>
           match rec G c, tc_stmts rec ([] :: G) th, tc_stmts rec ([] :: G) el with
-          | Some TBool, Some t1, Some t2 => if ty_eqb t1 t2 then Some t1 else None
+          | Some tcnd, Some t1, Some t2 => if sub tcnd TBool then join t1 t2 else None
           | _, _, _ => None
           end
       | TmWhile c b =>
           match rec G c, tc_stmts rec ([] :: G) b with
-          | Some TBool, Some _ => Some TUnit
+          | Some tcnd, Some _ => if sub tcnd TBool then Some TUnit else None
           | _, _ => None
           end
+      | TmSome a => match rec G a with Some t => Some (TOpt t) | None => None end
+      | TmNone => Some (TOpt TNoValue)
+      | TmMatch sc arms =>
+          match rec G sc with
+          | Some (TOpt t) =>
+              (* exhaustive and irredundant: exactly the arms Some(x) and None, in either order *)
+              let both (x : ident) (b1 b2 : list tm) :=
+                match tc_stmts rec ([(x, t)] :: G) b1, tc_stmts rec ([] :: G) b2 with
+                | Some t1, Some t2 => join t1 t2
+                | _, _ => None
+                end in
+              match arms with
+              | [(PSome x, b1); (PNone, b2)] => both x b1 b2
+              | [(PNone, b2); (PSome x, b1)] => both x b1 b2
+              | _ => None
+              end
+          | _ => None
+          end
+      | TmFor x it b =>
+          match rec G it with
+          | Some TListInt => match tc_stmts rec ([(x, TInt)] :: G) b with Some _ => Some TUnit | None => None end
+          | Some TListEmpty => match tc_stmts rec ([(x, TNoValue)] :: G) b with Some _ => Some TUnit | None => None end
+          | _ => None
+          end
+      | TmReturn a =>
+          match rt, rec G a with
+          | Some tr, Some t => if sub t tr then Some TNoValue else None
+          | _, _ => None
+          end
+      | TmPair a b =>
+          match rec G a, rec G b with
+          | Some ta, Some tb => Some (TPair ta tb)
+          | _, _ => None
+          end
+      | TmLetPair _ _ _ => None               (* only as a statement of a block *)
       end
   end.
 
+(* the body's value has (a subtype of) the declared type; NoValue: the body always leaves by `return` *)
 Definition tc_fun (n : nat) (F : fenv) (d : fdef) : bool :=
-  match tc_stmts (tc n F) [fparams d] (fbody d) with
-  | Some t => ty_eqb t (fret d)
+  match tc_stmts (tc n F (Some (fret d))) [fparams d] (fbody d) with
+  | Some t => sub t (fret d)
   | None => false
   end.
 
 (* size bound used as checker fuel *)
 Fixpoint tm_size (e : tm) : nat :=
   let fix sz (l : list tm) : nat := match l with [] => 0%nat | x :: l' => (tm_size x + sz l')%nat end in
+  let fix asz (l : list (pat * list tm)) : nat := match l with [] => 0%nat | (_, b) :: l' => (sz b + asz l')%nat end in
   S (match e with
      | TmList l => sz l
-     | TmBin _ a b => tm_size a + tm_size b
+     | TmBin _ a b | TmPair a b => tm_size a + tm_size b
      | TmCall _ l => sz l
-     | TmPrintln a | TmRepr a | TmLet _ a | TmAssign _ a | TmUpd _ _ a => tm_size a
+     | TmPrintln a | TmRepr a | TmLet _ a | TmAssign _ a | TmUpd _ _ a | TmSome a | TmReturn a | TmLetPair _ _ a => tm_size a
+     | TmMatch sc arms => tm_size sc + asz arms
+     | TmFor _ it b => tm_size it + sz b
      | TmIf c th el => tm_size c + sz th + (match el with Some l => sz l | None => 0 end)
      | TmWhile c b => tm_size c + sz b
      | _ => 0
@@ -231,7 +316,7 @@ Fixpoint tms_size (l : list tm) : nat :=
 
 Definition tc_prog (p : program) : bool :=
   forallb (fun fd => tc_fun (S (tms_size (fbody (snd fd)))) (pfuns p) (snd fd)) (pfuns p) &&
-  match tc_stmts (tc (S (tms_size (pmain p))) (pfuns p)) [[]] (pmain p) with Some _ => true | None => false end.
+  match tc_stmts (tc (S (tms_size (pmain p))) (pfuns p) None) [[]] (pmain p) with Some _ => true | None => false end.
 
 (* ---- the reference semantics ------------------------------------------------- *)
 Inductive value :=
@@ -239,14 +324,21 @@ Inductive value :=
 | VBool (b : bool)
 | VStr (s : list N)
 | VUnit
-| VList (l : list value).
+| VList (l : list value)
+| VSome (v : value)
+| VNone
+| VPair (a b : value).
 
 Definition env := list (list (ident * value)).
 
-Definition has_type (v : value) (t : ty) : bool :=
+Fixpoint has_type (v : value) (t : ty) {struct v} : bool :=
   match v, t with
   | VInt _, TInt | VBool _, TBool | VStr _, TStr | VUnit, TUnit => true
   | VList l, TListInt => forallb (fun x => match x with VInt _ => true | _ => false end) l
+  | VList l, TListEmpty => match l with [] => true | _ => false end
+  | VSome w, TOpt t' => has_type w t'
+  | VNone, TOpt _ => true
+  | VPair a b, TPair ta tb => has_type a ta && has_type b tb
   | _, _ => false
   end.
 
@@ -254,11 +346,13 @@ Inductive res (A : Type) :=
 | Ok (a : A)
 | TypeErr          (* every type-related runtime error of the property *)
 | OtherErr         (* division by zero, overflow, ... *)
-| OutOfFuel.
+| OutOfFuel
+| Return (v : value).     (* `return v` travelling to the enclosing call *)
 Arguments Ok {A} a.
 Arguments TypeErr {A}.
 Arguments OtherErr {A}.
 Arguments OutOfFuel {A}.
+Arguments Return {A} v.
 
 Definition in_i64 (z : Z) : bool := Z.leb (- 2 ^ 63) z && Z.ltb z (2 ^ 63).
 Definition ret_int (z : Z) : res value := if in_i64 z then Ok (VInt z) else OtherErr.
@@ -276,6 +370,9 @@ Fixpoint veq (a b : value) : bool :=
   | VStr x, VStr y => if list_eq_dec N.eq_dec x y then true else false
   | VUnit, VUnit => true
   | VList l1, VList l2 => all2 l1 l2
+  | VSome x, VSome y => veq x y
+  | VNone, VNone => true
+  | VPair x1 x2, VPair y1 y2 => veq x1 y1 && veq x2 y2
   | _, _ => false
   end.
 
@@ -319,9 +416,9 @@ Section WithEvaluator.
         | Ok (v, r1) =>
             match ev_list r1 l' with
             | Ok (vs, r2) => Ok (v :: vs, r2)
-            | TypeErr => TypeErr | OtherErr => OtherErr | OutOfFuel => OutOfFuel
+            | TypeErr => TypeErr | OtherErr => OtherErr | OutOfFuel => OutOfFuel | Return w => Return w
             end
-        | TypeErr => TypeErr | OtherErr => OtherErr | OutOfFuel => OutOfFuel
+        | TypeErr => TypeErr | OtherErr => OtherErr | OutOfFuel => OutOfFuel | Return w => Return w
         end
     end.
 
@@ -330,6 +427,12 @@ Section WithEvaluator.
     | TmLet x rhs =>
         match evf r rhs with
         | Ok (v, r1) => Ok (VUnit, bind x v r1)
+        | other => other
+        end
+    | TmLetPair x y rhs =>
+        match evf r rhs with
+        | Ok (VPair a b, r1) => Ok (VUnit, bind y b (bind x a r1))
+        | Ok (_, _) => TypeErr                                  (* Expected a tuple *)
         | other => other
         end
     | _ => evf r e
@@ -345,13 +448,33 @@ Section WithEvaluator.
         end
     end.
 
-  (* a block: new scope, statements, scope dropped *)
-  Definition ev_block (r : env) (l : list tm) : res (value * env) :=
-    match ev_stmts ([] :: r) l with
+  (* a block: new scope (with the bindings of a match arm / loop variable), statements, scope dropped *)
+  Definition ev_block_in (sc0 : list (ident * value)) (r : env) (l : list tm) : res (value * env) :=
+    match ev_stmts (sc0 :: r) l with
     | Ok (v, r') => Ok (v, tl r')
     | other => other
     end.
+  Definition ev_block (r : env) (l : list tm) : res (value * env) := ev_block_in [] r l.
+
+  (* for x in vs { body } *)
+  Fixpoint ev_for (x : ident) (body : list tm) (vs : list value) (r : env) : res (value * env) :=
+    match vs with
+    | [] => Ok (VUnit, r)
+    | v :: vs' =>
+        match ev_block_in [(x, v)] r body with
+        | Ok (_, r') => ev_for x body vs' r'
+        | other => other
+        end
+    end.
 End WithEvaluator.
+
+(* the first arm that matches the scrutinee: its bindings and body *)
+Fixpoint pick (arms : list (pat * list tm)) (v : value) : option (list (ident * value) * list tm) :=
+  match arms with
+  | [] => None
+  | (PSome x, b) :: rest => match v with VSome w => Some ([(x, w)], b) | _ => pick rest v end
+  | (PNone, b) :: rest => match v with VNone => Some ([], b) | _ => pick rest v end
+  end.
 
 Fixpoint args_ok (vs : list value) (ps : list (ident * ty)) : bool :=
   match vs, ps with
@@ -380,7 +503,7 @@ Fixpoint ev (n : nat) (F : fenv) (r : env) (e : tm) : res (value * env) :=
       | TmList l =>
           match ev_list rec r l with
           | Ok (vs, r1) => Ok (VList vs, r1)
-          | TypeErr => TypeErr | OtherErr => OtherErr | OutOfFuel => OutOfFuel
+          | TypeErr => TypeErr | OtherErr => OtherErr | OutOfFuel => OutOfFuel | Return w => Return w
           end
       | TmVar x => match lookup x r with Some v => Ok (v, r) | None => TypeErr end       (* No such variable *)
       | TmBin o a b =>
@@ -390,7 +513,7 @@ Fixpoint ev (n : nat) (F : fenv) (r : env) (e : tm) : res (value * env) :=
               | Ok (vb, r2) =>
                   match eval_bop o va vb with
                   | Ok v => Ok (v, r2)
-                  | TypeErr => TypeErr | OtherErr => OtherErr | OutOfFuel => OutOfFuel
+                  | TypeErr => TypeErr | OtherErr => OtherErr | OutOfFuel => OutOfFuel | Return w => Return w
                   end
               | other => other
               end
@@ -409,10 +532,10 @@ Fixpoint ev (n : nat) (F : fenv) (r : env) (e : tm) : res (value * env) :=
                       else if negb (args_ok vs (fparams d)) then TypeErr                   (* parameter annotation *)
                       else
                         match ev_stmts rec [zip_params (fparams d) vs] (fbody d) with
-                        | Ok (v, _) => if has_type v (fret d) then Ok (v, r1) else TypeErr (* return annotation *)
+                        | Ok (v, _) | Return v => if has_type v (fret d) then Ok (v, r1) else TypeErr (* return annotation *)
                         | TypeErr => TypeErr | OtherErr => OtherErr | OutOfFuel => OutOfFuel
                         end
-                  | TypeErr => TypeErr | OtherErr => OtherErr | OutOfFuel => OutOfFuel
+                  | TypeErr => TypeErr | OtherErr => OtherErr | OutOfFuel => OutOfFuel | Return w => Return w
                   end
               end
           end
@@ -448,7 +571,7 @@ Fixpoint ev (n : nat) (F : fenv) (r : env) (e : tm) : res (value * env) :=
               | Some (VInt a), VInt b =>
                   match ret_int (if minus then a - b else a + b) with
                   | Ok w => match update x w r1 with Some r2 => Ok (VUnit, r2) | None => TypeErr end
-                  | TypeErr => TypeErr | OtherErr => OtherErr | OutOfFuel => OutOfFuel
+                  | TypeErr => TypeErr | OtherErr => OtherErr | OutOfFuel => OutOfFuel | Return w => Return w
                   end
               | _, _ => TypeErr
               end
@@ -480,6 +603,51 @@ Fixpoint ev (n : nat) (F : fenv) (r : env) (e : tm) : res (value * env) :=
           | Ok (_, _) => TypeErr
           | other => other
           end
+      | TmSome a =>
+          match rec r a with
+          | Ok (v, r1) => Ok (VSome v, r1)
+          | other => other
+          end
+      | TmNone => Ok (VNone, r)
+      | TmMatch sc arms =>
+          match rec r sc with
+          | Ok (v, r1) =>
+              match v with
+              | VSome _ | VNone =>
+                  match pick arms v with
+                  | Some (sc0, body) => ev_block_in rec sc0 r1 body
+                  | None => TypeErr                             (* No cases in this `match` *)
+                  end
+              | _ => TypeErr                                    (* the scrutinee is not an enum value *)
+              end
+          | other => other
+          end
+      | TmFor x it b =>
+          match rec r it with
+          | Ok (VList vs, r1) => ev_for rec x b vs r1
+          | Ok (_, _) => TypeErr                                (* Expected a list *)
+          | other => other
+          end
+      | TmReturn a =>
+          match rec r a with
+          | Ok (v, _) => Return v
+          | other => other
+          end
+      | TmPair a b =>
+          match rec r a with
+          | Ok (va, r1) =>
+              match rec r1 b with
+              | Ok (vb, r2) => Ok (VPair va vb, r2)
+              | other => other
+              end
+          | other => other
+          end
+      | TmLetPair x y rhs =>
+          match rec r rhs with
+          | Ok (VPair a b, r1) => Ok (VUnit, bind y b (bind x a r1))
+          | Ok (_, _) => TypeErr
+          | other => other
+          end
       end
   end.
 
@@ -487,7 +655,7 @@ Inductive outcome := Finished (v : value) | TypeError | OtherError | Diverged.
 
 Definition run (fuel : nat) (p : program) : outcome :=
   match ev_stmts (ev fuel (pfuns p)) [[]] (pmain p) with
-  | Ok (v, _) => Finished v
+  | Ok (v, _) | Return v => Finished v
   | TypeErr => TypeError
   | OtherErr => OtherError
   | OutOfFuel => Diverged
